@@ -65,10 +65,26 @@ def run_suite(res, cases, name, per=200, rule="", extra=None, fuel=FUEL):
         except (core.Unencodable, decl.Unreflectable) as e:
             unenc += 1
     table = parsesuite.regex_oracle([("[0-9]+", s) for s in strs])
+    import re as _re
+
+    def sub_world(chunk):
+        """only the declarations a shard's cases reach (their classes and, transitively, the classes those mention): the cost
+        of a shard does not grow with the number of classes of the whole suite"""
+        need, todo = set(), [int(_re.match(r"\((\d+)%nat", l).group(1)) for l in chunk]
+        while todo:
+            i = todo.pop()
+            if i in need:
+                continue
+            need.add(i)
+            d = world.decls.get(i)
+            if d:
+                todo.extend(int(x) for x in _re.findall(r"TData (\d+)%nat", d))
+        arms = "".join("  | %d%%nat => Some (%s)\n" % (i, world.decls[i]) for i in sorted(need) if world.decls.get(i))
+        return "(fun c : nat => match c with\n%s  | _ => None end)" % arms
     shards = ["Definition RE := %s.\n%s\nDefinition DD : decls := %s.\nDefinition cases : list dcase := [\n%s\n].\n"
               "Goal True. idtac \"MISMATCH\". exact I. Qed.\nEval vm_compute in (bad_idx (case_ok DD) cases).\n"
               "Goal True. idtac \"SKIPS\". exact I. Qed.\nEval vm_compute in (count_if (case_skip DD) cases).\n"
-              % (table, PRELUDE % fuel, world.decls_term(), ";\n".join(lines[s:s + per])) for s in range(0, len(lines), per)]
+              % (table, PRELUDE % fuel, sub_world(lines[s:s + per]), ";\n".join(lines[s:s + per])) for s in range(0, len(lines), per)]
     mism, skips = [], 0
     b = core.build(["Model/Parse.vo"])
     if not b["ok"]:
